@@ -87,6 +87,19 @@ CLAIMED["C01"] = dict(
     technique="call-sequence symmetry and effect tables by abstract MIR path enumeration",
 )
 
+CLAIMED["C17"] = dict(
+    category="other",
+    text=("History-independence half, by ownership/typestate: R17.1 clone_for_arg_index rebuilds the planar graph with every edge re-allocated "
+          "(Rc::new(RefCell::new(edge.clone()))) on every path, node storage holds no interior mutability, the requested operand index is "
+          "installed; R17.2 PreparedGeometry's Relate impl only returns that clone and does not override relate(); R17.3 set_tree only from "
+          "prepare_geometry, compute_self_nodes is a no-op once the flag is set, the clone carries the flag, swap_labels runs iff the index "
+          "changes; R17.4 the cached bounding box is geometry.bounding_rect() and the cached graph has index 0; R17.5 both paths node with "
+          "RobustLineIntersector. Equality of matrices as such follows only together with C01's undecided core and rstar's candidate enumeration."),
+    design_ref="DESIGN.md §4 C17",
+    note="Trusted: rstar envelope queries (dependency); C01's undecided core; symbolic Clone model (clone of Vec<Rc<_>> shares handles).",
+    technique="ownership / typestate rules over MIR path tables (aggregate provenance, effect guards)",
+)
+
 NOT_YET = "rule set not implemented in this revision of /verif (see DESIGN.md §7 build order); nothing is claimed"
 NA = {}
 
